@@ -99,6 +99,13 @@ func runC11(c *Ctx) {
 			continue
 		}
 		cs := genC01Case(c, i)
+		if i%8 == 7 {
+			// loosely typed destinations (interface{}, map[string]interface{}, []interface{} and a struct of
+			// them) with number-heavy documents: the generic/fast-map paths of the implementations
+			tc := c18Targeted([]string{"UseNumber", "UseNumber", "ValidateString"}[(i/8)%3], c.Rng(i+1<<27))
+			tc.cfg = cs.cfg
+			cs = tc
+		}
 		if os.Getenv("VERIF_DDMIN") != "" {
 			// triage aid: shrink the document while Unmarshal still panics
 			bad := func(doc string) (p bool) {
@@ -357,6 +364,17 @@ func c13Str(raw string) string {
 	}
 	m, err := sonic.Marshal(strHolder{raw})
 	fmt.Fprintf(&sb, "dquote=%v:%s;", err != nil, h64(string(m)))
+	// caller-supplied buffers of every capacity residue: generated code keeps buffer geometry in registers
+	// next to the arguments of the native calls (base64, quote)
+	for _, cp := range []int{0, 1, 2, 3, 5, 1025, 1026, 1027} {
+		buf := make([]byte, 0, cp)
+		err := encoder.EncodeInto(&buf, struct {
+			B []byte
+			S string
+			P *[]byte
+		}{[]byte(raw), raw, &[]byte{0xfb, 0xff, 0xfe}}, 0)
+		fmt.Fprintf(&sb, "into%d=%v:%s;", cp, err != nil, h64(string(buf)))
+	}
 	return sb.String()
 }
 
